@@ -56,6 +56,15 @@ fn check_files(cx: &mut Cx, files: &[(String, String)], blame: &[(String, usize)
 				if o.close_err.is_none() {cx.report.oracle_fail(input, "the ill-formed statement produced no diagnostic");}
 				return;
 			}
+			// what the executable prints for a diagnostic ends with "(file:line:col)" of that same position
+			for ((file, line, col, _), text) in o.errors.iter().zip(o.printed.iter())
+			{
+				if !text.ends_with(&format!("({file}:{line}:{col})"))
+				{
+					cx.report.oracle_fail(input, format!("the diagnostic at {file}:{line}:{col} is printed as {text:?}"));
+					return;
+				}
+			}
 			for (file, line, col, msg) in &o.errors
 			{
 				let base = file.rsplit('/').next().unwrap_or(file);
